@@ -1435,12 +1435,20 @@ func (p *Parser) parseOrderBy(stmt *SelectStatement) error {
 	orderLexer := NewLexer(p.input)
 	orderLexer.SetErrorRecovery(NewErrorRecovery(nil))
 	orderPos := -1
+	// Only a top-level ORDER starts the statement's ORDER BY clause: an ORDER BY inside parentheses
+	// belongs to MATCH_RECOGNIZE (...) (or is rejected inside OVER (...)) and must not be taken for it.
+	depth := 0
 	for {
 		tok := orderLexer.NextToken()
 		if tok.Type == TokenEOF {
 			break
 		}
-		if tok.Type == TokenOrder {
+		if tok.Type == TokenLParen {
+			depth++
+		} else if tok.Type == TokenRParen && depth > 0 {
+			depth--
+		}
+		if tok.Type == TokenOrder && depth == 0 {
 			orderPos = tok.Pos
 			break
 		}
